@@ -61,6 +61,7 @@ PROPS = {
             det("decode_time", "^TestC15DecodeTime$"),
             det("encode_time", "^TestC15EncodeTime$", thorough={"shards": 1, "timeout": 3000}),
             det("durations", "^TestC15Durations$"),
+            det("through_demuxer", "^TestC15ThroughDemuxer$", quick={"shards": 4}, thorough={"shards": 8}),
         ],
     },
     "C11": {
@@ -120,6 +121,8 @@ PROPS = {
             rap("tags", "^TestC14Tags$", 15000, 100000, 2, 16),
             rap("write", "^TestC14Write$", 8000, 60000, 2, 16),
             rap("noshift", "^TestC14NoShift$", 6000, 50000, 2, 16),
+            rap("random_loops", "^TestC14RandomBytes$", 10000, 100000, 2, 16),
+            {"name": "fuzz_loops", "fuzz": "FuzzC14", "thorough": {"fuzztime": "120s", "timeout": 600}},
         ],
     },
     "C13": {
@@ -283,6 +286,7 @@ PROPS = {
             rap("single_faults", "^TestC06Single$", 40, 400, 6, 16),
             rap("multi_faults", "^TestC06Multi$", 1500, 15000, 4, 16),
             det("known_finding_probe", "^TestC06KnownK1$"),
+            det("abstract_sequences", "^TestC06Abstract$", quick={"shards": 8}, thorough={"shards": 16, "timeout": 3000}),
         ],
     },
     "C07": {
